@@ -85,16 +85,16 @@ Fixpoint observe (d : dstate) (ops : list op) : list sx :=
   | o :: r => let d' := step d o in e_obs d' :: observe d' r
   end.
 
-(* case := [opts; states; transitions; initial; ops; acts; budget; regen] *)
+(* case := [opts; states; transitions; initial; ops; acts; budget; regen; scoped] *)
 Definition run_diagram_case (x : sx) : sx :=
   match x with
-  | L [ox; sx_; tx; ix; opx; ax; N bud; rx] =>
+  | L [ox; sx_; tx; ix; opx; ax; N bud; rx; scx] =>
       match d_opts ox, d_list d_stree sx_, d_list d_trans tx, d_name ix, d_list d_op opx,
-            d_list (d_pair d_str d_str) ax, d_list d_str rx with
-      | Some o, Some f, Some ts, Some i, Some ops, Some acts, Some rg =>
-          let d0 := init_state (mkM f ts i o acts bud rg) in
+            d_list (d_pair d_str d_str) ax, d_list d_str rx, d_list (d_pair d_name d_trans) scx with
+      | Some o, Some f, Some ts, Some i, Some ops, Some acts, Some rg, Some sc =>
+          let d0 := init_state (mkM f ts i o acts bud rg sc) in
           L [N 1; L (e_obs d0 :: observe d0 ops)]
-      | _, _, _, _, _, _, _ => L [N 0]
+      | _, _, _, _, _, _, _, _ => L [N 0]
       end
   | _ => L [N 0]
   end.
